@@ -243,6 +243,11 @@ int main(int argc, char** argv) {
         slicings.push_back({total});
         { std::vector<unsigned> s; unsigned left = total; while (left) { unsigned n = 1 + rng.below(rng.chance(1, 2) ? 3 : 40); if (n > left) n = left; s.push_back(n); left -= n; } slicings.push_back(s); }
         { std::vector<unsigned> s; unsigned left = total; unsigned ones = std::min<unsigned>(left, 20 + rng.below(80)); for (unsigned i = 0; i < ones; ++i) s.push_back(1); left -= ones; while (left) { unsigned n = 1 + rng.below(200); if (n > left) n = left; s.push_back(n); left -= n; } slicings.push_back(s); }
+        if (a.mode == "step") {   // every instruction boundary observed (C07): single steps only, for a bounded budget
+            total = std::min<unsigned>(total, 260);
+            slicings.clear();
+            slicings.push_back(std::vector<unsigned>(total, 1));
+        }
         for (auto& sl : slicings) {
             Inst in;
             fresh(in);
